@@ -677,10 +677,16 @@ class Tee:
             raise
 
     def __enter__(self):
-        return MirrorLeecher(self.__file, self.__caches)
+        self.__leecher = MirrorLeecher(self.__file, self.__caches)
+        return self.__leecher
 
     def __exit__(self, exc_type, exc_value, traceback):
         try:
+            if exc_type is None and self.__caches:
+                # The tar reader stops at the end-of-archive marker. Drain the
+                # remainder (padding, compression trailer) so that the mirrored
+                # copies are complete files and not just a truncated prefix.
+                while self.__leecher.read(0x10000): pass
             if self.__owner: self.__file.close()
             if exc_type is None:
                 while self.__caches:
